@@ -12,6 +12,8 @@ package props
 import (
 	"encoding/json"
 	"fmt"
+	"os"
+	"runtime"
 	"sort"
 	"strings"
 
@@ -128,8 +130,58 @@ func c09Sizes(tier string) (exh2Units, exh3Units, rndUnits, rndPer int) {
 	return 16, 40, 96, 12
 }
 
+// c09Blowup probes the canonical witness of the known finding "validator work grows
+// exponentially with nesting depth when union alternatives stay ambiguous": work is measured as
+// the number of heap allocations of one Validate call (a logical step count, not time).
+func c09Blowup(c *mon.Ctx) {
+	s := &model.Schema{
+		Root: model.Ref("@a", "@b"),
+		Types: []*model.TypeDef{
+			{Name: "@a", Root: model.Obj(model.P("p", model.Ref("@a", "@b").With(model.RBool("optional", true))))},
+			{Name: "@b", Root: model.Obj(model.P("p", model.Ref("@b", "@a").With(model.RBool("optional", true))))},
+		},
+	}
+	sp := specOf(s, model.Style{})
+	sch, o := lib.Build(sp)
+	if !o.OK || !lib.Safe(sch.Check).OK {
+		c.Inconclusive("blow-up witness schema is not accepted by Check any more")
+		return
+	}
+	doc := func(d int) string { return strings.Repeat(`{"p":`, d) + "{}" + strings.Repeat("}", d) }
+	work := func(d int) uint64 {
+		var a, b runtime.MemStats
+		text := doc(d)
+		lib.ValidateOn(sch, text) // warm
+		runtime.ReadMemStats(&a)
+		vo := lib.ValidateOn(sch, text)
+		runtime.ReadMemStats(&b)
+		if !vo.OK {
+			return 0
+		}
+		return b.Mallocs - a.Mallocs
+	}
+	w4, w12 := work(4), work(12)
+	c.Eval(1)
+	c.Count("blow-up probe: allocations at depth 4", int(w4))
+	c.Count("blow-up probe: allocations at depth 12", int(w12))
+	if w4 == 0 || w12 == 0 {
+		c.Inconclusive("blow-up witness document is not accepted any more")
+		return
+	}
+	// depth grows 3x: a validator whose work is polynomial of small degree stays below 30x
+	if w12 > 30*w4 {
+		c.Violate("blowup", map[string]any{"class": "ambiguous union alternatives nested along a cycle", "witness": sp},
+			"work grows polynomially with nesting depth", fmt.Sprintf("allocations: depth 4 -> %d, depth 12 -> %d", w4, w12),
+			"Validate work grows exponentially with document depth (2^depth live validators); a ~1 KiB document nested 40 deep does not finish")
+	}
+}
+
 func c09Run(c *mon.Ctx, unit int) {
 	e2, e3, _, per := c09Sizes(c.Tier)
+	if unit == 0 {
+		c09Blowup(c)
+		c09TwoTypeWitness(c)
+	}
 	switch {
 	case unit < e2:
 		// all graphs over 2 types (+ one missing name), all three root kinds
@@ -201,6 +253,35 @@ func c09Run(c *mon.Ctx, unit int) {
 	}
 }
 
+// c09OnlyMissing: would the graph be legal if the missing names were added as leaf types?
+// Only then does the statement decide that the error must name a missing type.
+func c09OnlyMissing(s *model.Schema, missing []string) bool {
+	s2 := &model.Schema{Root: s.Root, Types: append([]*model.TypeDef{}, s.Types...), Enums: s.Enums, OptKeys: s.OptKeys}
+	for _, m := range missing {
+		s2.Types = append(s2.Types, &model.TypeDef{Name: m, Root: model.Int("1")})
+	}
+	v, _ := model.RecursionVerdict(s2)
+	return v == model.Accept
+}
+
+// c09TwoTypeWitness probes the canonical witness of the known finding "a required cycle
+// through two types passes Check".
+func c09TwoTypeWitness(c *mon.Ctx) {
+	s := &model.Schema{
+		Root: model.Ref("@r"),
+		Types: []*model.TypeDef{
+			{Name: "@r", Root: model.Obj(model.P("p", model.Ref("@s")))},
+			{Name: "@s", Root: model.Obj(model.P("p", model.Ref("@r")))},
+		},
+	}
+	sp := specOf(s, model.Style{})
+	c.Eval(1)
+	if o := lib.Check(sp); o.OK {
+		c.Violate("recursion-known", map[string]any{"class": model.KnownTwoTypeRecursion, "witness": sp}, "reject", o.String(),
+			"Check accepts a required cycle through two types (@r -> @s -> @r)")
+	}
+}
+
 func c09Judge(c *mon.Ctx, s *model.Schema, class string, sample bool) {
 	sp := specOf(s, model.Style{})
 	want, why := model.RecursionVerdict(s)
@@ -240,12 +321,15 @@ func c09Judge(c *mon.Ctx, s *model.Schema, class string, sample bool) {
 		c.Count("oracle unspecified: "+strings.SplitN(why, " but ", 2)[len(strings.SplitN(why, " but ", 2))-1], 1)
 	case model.Reject:
 		c.Count("verdict expected=reject observed="+obs.Verdict(), 1)
-		if obs.OK {
+		if obs.OK && why == model.KnownTwoTypeRecursion {
+			// collapsed into the canonical witness probed in unit 0 (known finding)
+			c.Count("graphs in the known class: illegal recursion through >=2 distinct types accepted by Check", 1)
+		} else if obs.OK {
 			c.Violate("recursion", c09Case{Spec: sp}, "reject", obs.String(), "Check accepts a graph it must reject: "+why)
 			return
 		}
 		c.Count(fmt.Sprintf("rejection code %d", obs.Code), 1)
-		if m := model.MissingTypes(s); len(m) > 0 {
+		if m := model.MissingTypes(s); len(m) > 0 && c09OnlyMissing(s, m) {
 			named := false
 			for _, n := range m {
 				if strings.Contains(obs.Msg, n) || strings.Contains(lib.Observe(obs.Err).Msg, n) {
@@ -281,7 +365,18 @@ func c09Judge(c *mon.Ctx, s *model.Schema, class string, sample bool) {
 		dg := gen.NewDocs(s, mon.NewRng(mon.HashString(sp.Text)+uint64(deep)))
 		dg.Deep = deep
 		v := dg.Conform()
+		if amb := model.Ambiguity(s, v); amb > 64 {
+			// known finding C09/validator-blowup: the lock-step validator keeps every union
+			// alternative alive, work grows exponentially with the nesting depth. Such documents
+			// stay out of the termination monitor (the canonical witness is probed in unit 0).
+			c.Count("documents in the known exponential-ambiguity class (not validated)", 1)
+			continue
+		}
 		doc := v.Text()
+		if os.Getenv("VERIF_DEBUG") != "" {
+			b, _ := json.Marshal(c09Case{Spec: sp, Doc: doc})
+			fmt.Fprintf(os.Stderr, "C09 validate deep=%d %s\n", deep, b)
+		}
 		vo := lib.ValidateOn(sch, doc)
 		c.Eval(1)
 		c.Count(fmt.Sprintf("Validate calls, documents unrolled to depth %d", deep), 1)
@@ -346,6 +441,16 @@ func init() {
 				var cs c09Case
 				json.Unmarshal(raw, &cs)
 				return lib.Check(cs.Spec).String()
+			},
+			"recursion-known": func(raw json.RawMessage) string {
+				var m struct {
+					Witness lib.Spec `json:"witness"`
+				}
+				json.Unmarshal(raw, &m)
+				return lib.Check(m.Witness).Verdict()
+			},
+			"blowup": func(raw json.RawMessage) string {
+				return "replay by running ./check C09 quick (the probe runs in unit 0)"
 			},
 			"example": func(raw json.RawMessage) string {
 				var cs c09Case
